@@ -24,57 +24,9 @@ _QTERMS = []
 
 
 def setup_symbolic():
-    import sys
+    from vx import stubs
 
-    import z3
-
-    from vx import symx
-
-    conf = sys.modules["kafe2.core.confidence"]
-
-    def Q(a, x):
-        if not symx.is_sym(a) and not symx.is_sym(x):
-            from scipy.special import gammaincc as g
-
-            return float(g(a, x))
-        e = symx.cur()
-        ta, tx = symx.rv(a), symx.rv(x)
-        t = symx.UF_Q(ta, tx)
-        # range on x > 0, value at 0, inverse, monotonicity against earlier applications
-        e.axiom(z3.Implies(tx > 0, z3.And(t > 0, t < 1)))
-        e.axiom(z3.Implies(tx == 0, t == 1))
-        e.axiom(z3.Implies(tx >= 0, symx.UF_QINV(ta, t) == tx))
-        if symx.const_value(ta) == 1:
-            ex = symx.UF_EXP(-tx)
-            e.axiom(t == ex)
-        for (oa, ox, ot) in getattr(e, "_qterms", []):
-            e.axiom(z3.Implies(z3.And(oa == ta, ox < tx, ox >= 0), ot > t))
-            e.axiom(z3.Implies(z3.And(oa == ta, tx < ox, tx >= 0), t > ot))
-        e._qterms = getattr(e, "_qterms", []) + [(ta, tx, t)]
-        return symx.SymReal(t)
-
-    def Qinv(a, y):
-        if not symx.is_sym(a) and not symx.is_sym(y):
-            from scipy.special import gammainccinv as g
-
-            return float(g(a, y))
-        e = symx.cur()
-        ta, ty = symx.rv(a), symx.rv(y)
-        t = symx.UF_QINV(ta, ty)
-        e.axiom(z3.Implies(z3.And(ty > 0, ty < 1), z3.And(t > 0, symx.UF_Q(ta, t) == ty)))
-        e.axiom(z3.Implies(ty == 1, t == 0))
-        return symx.SymReal(t)
-
-    conf.gammaincc = Q
-    conf.gammainccinv = Qinv
-    # fresh per path: the engine object is reused across paths, so reset the memo at path start
-    orig_reset = symx.Engine._reset
-
-    def _reset(self, decisions, model):
-        orig_reset(self, decisions, model)
-        self._qterms = []
-
-    symx.Engine._reset = _reset
+    stubs.install_special()
 
 
 def _conf():
